@@ -567,7 +567,7 @@ def run(ck):
         ck.add_violation('translator:sol-guards', 'the integer decisions of the SOL reader/writer could not be re-translated from the source (the code around them changed): %s' % tr_err,
                          {'translator': 'translators/gen_solguards.py', 'output': tr_err}, found_input=False)
     proof_ok, failing = ck.proof_stage('MpVerif.C14.Props', 'MpVerif/C14/Props.lean', 'C14_',
-                                        ['MpVerif/C14/*.lean', 'MpVerif/Gen/SolGuards.lean'], expect_min=38)
+                                        ['MpVerif/C14/*.lean', 'MpVerif/Gen/SolGuards.lean'], expect_min=40)
     ck.log('proof stage: ok=%s failing=%s' % (proof_ok, failing[:12]))
     if ck.tier == 'thorough' and proof_ok:
         bad = ck.leanchecker(['MpVerif.C14.Props'])
